@@ -122,17 +122,22 @@ def register_vs_mnemonic(F, tab):
     conflict = sorted(m for m in tab if m[:1] == "r")
     noop = sorted(m for m, e in tab.items() if e[0] == "NoOperand")
 
-    def wrapped(fn_path, inner_pred):
+    def wrapped(fn_path, *inner_preds):
+        """some `attempt(..)` of the function whose argument contains a call satisfying each predicate"""
         fn = F.fns.get(fn_path)
         if not fn or not fn.get("thir"):
             return False
         for n in walk(fn["thir"]["body"]):
             if n.get("k") == "call" and (callee_path(n) or "").endswith("::attempt"):
-                if any(y.get("k") == "call" and inner_pred(callee_path(y) or "") for a in n["args"] for y in walk(a)):
+                inner = [callee_path(y) or "" for a in n["args"] for y in walk(a) if y.get("k") == "call"]
+                if all(any(pred(c) for c in inner) for pred in inner_preds):
                     return True
         return False
+    # either the whole register alternative is under `attempt`, or inside `register` the `attempt` covers the `r` together
+    # with what tells a register from a mnemonic (the no-letter look-ahead or the digits): an `attempt` around the bare
+    # `r` still commits before the look-ahead fails
     backtracks = wrapped("asm_parser::operand", lambda c: c.endswith("asm_parser::register")) or \
-        wrapped("asm_parser::register", lambda c: c.endswith("::char"))
+        wrapped("asm_parser::register", lambda c: c.endswith("::char"), lambda c: c.endswith("::not_followed_by") or c.endswith("::digit"))
     return (backtracks or not (conflict and noop)), {"mnemonics starting with r": conflict, "operand-less mnemonics": noop,
                                                      "register alternative backtracks": backtracks}
 
